@@ -3,13 +3,15 @@
    missing-directory pass) is proved for all inputs; within one directory the handler is invoked exactly for
    the items that do not verify, once each, in order (C07_directory_log with C01_items_exactly: every name is
    an item at most once); and over the whole tree every handler invocation is justified by a failed check of that very
-   path, with exactly the differences handed over (C07_only_offending_reported: "for no other path").  PARTIAL: that two
+   path, with exactly the differences handed over (C07_only_offending_reported: "for no other path"), and conversely every entry
+   of the merged dictionary and every file found by the walk whose check fails IS reported, whichever directory it belongs to
+   (C07_every_offending_path_reported; Proofs/WalkComplete.v).  PARTIAL: that two
    different directory visits never report one path (distinctness of the joined paths) is carried by the correspondence
    engine, which compares the complete ordered call log. *)
 From Coq Require Import List NArith ZArith.
 From Gemato Require Import Py.PyStr Py.PyPath Gen.Tables Model.Entry Model.Text Model.OpenPGP Model.Hash
   Model.FS Model.Verify Model.Loader.
-From Gemato Require Import Proofs.KeepGoing Proofs.DirSpec Proofs.OnlyOffending.
+From Gemato Require Import Proofs.KeepGoing Proofs.DirSpec Proofs.OnlyOffending Proofs.WalkComplete.
 Import ListNotations.
 Open Scope N_scope.
 
@@ -49,3 +51,16 @@ Theorem C07_only_offending_reported : forall (L : hashlib) decompress pgp w l pa
   Forall (justified L w (mk_vctx (l_top l') (l_dev l') pol lm) path) log.
 Proof. exact only_offending_reported. Qed.
 Print Assumptions C07_only_offending_reported.
+
+(* "for each offending path": with [ed] the merged entry dictionary of the request, every entry of [ed] and every visible file of
+   every directory the walk reaches was checked (verify_path on the object its path names), and whenever that check answered
+   "does not match" the handler was invoked for that path with exactly these differences ([presented]) - in the walk or in the
+   trailing pass over entries of directories that were never visited *)
+Theorem C07_every_offending_path_reported : forall (L : hashlib) decompress pgp w l path pol lm l' b log,
+  assert_directory_verifies L decompress pgp w l path pol lm = Ok (l', b, log) ->
+  exists ed, get_file_entry_dict L decompress pgp w l path None true = Ok (l', ed) /\
+    let c := mk_vctx (l_top l') (l_dev l') pol lm in
+    (forall dir dd n e, In (dir, dd) ed -> In (n, e) dd -> presented L w c path (pjoin dir n) (Some e) log) /\
+    (forall dp rel, reach w ed (pjoin rootdir path) path dp rel -> files_presented L w c path ed dp rel log).
+Proof. exact directory_verification_complete. Qed.
+Print Assumptions C07_every_offending_path_reported.
